@@ -74,8 +74,8 @@ PROPS = {
         "level_note": "Trusted: channel/context/errgroup/WaitGroup contracts as modelled; gofacts Pipeline facts; the walk is tied by the pipeline correspondence stream (real MergeDir over fstest.MapFS with a recording acceptor vs the model).",
     },
     "C11": {
-        "streams": [("segment", 3000, 40000)],
-        "level_text": "Proof (standard batches): segment's credit and debit outputs together are a permutation of the input's entries, each side holds only its direction, using the regenerated case lists of segmentFileBatchAddEntry (disjoint, covering the standard codes); the numbering rule of File.Create and the exact condition under which the outputs' batch numbers validate, with the D8 counterexample proved on the model. IAT/ADV, Create/Validate of outputs, identification fields: oracle.",
+        "streams": [("segment", 3000, 40000), ("segmentiat", 3000, 40000)],
+        "level_text": "Proof (standard batches): segment's credit and debit outputs together are a permutation of the input's entries, each side holds only its direction, using the regenerated case lists of segmentFileBatchAddEntry (disjoint, covering the standard codes); the numbering rule of File.Create and the exact condition under which the outputs' batch numbers validate, with the D8 counterexample proved on the model. IAT batches: the case lists of segmentFileIATBatches are proved equal to the standard ones, so the same model and theorems cover them (segmentiat stream). ADV, Create/Validate of outputs, identification fields: oracle.",
         "level_note": "Trusted: model of segmentFileBatches/File.Create numbering; lists from gofacts.",
     },
     "C12": {
